@@ -2,7 +2,11 @@
 datetime classes) in every stdnum module namespace by a shim whose today()/now() return the
 explorer's chosen answer.  No change to /repo."""
 import sys
+import contextlib
 import datetime as _real
+
+_DATE = _real.date
+_DATETIME = _real.datetime
 
 
 class _State:
@@ -17,32 +21,32 @@ def _caller_module():
 
 class _DateMeta(type):
     def __instancecheck__(cls, inst):
-        return isinstance(inst, _real.date)
+        return isinstance(inst, _DATE)
 
 
-class date(_real.date, metaclass=_DateMeta):
+class date(_DATE, metaclass=_DateMeta):
     @classmethod
     def today(cls):
         m = _caller_module()
         _State.calls[m] = _State.calls.get(m, 0) + 1
         if _State.today is None:
-            return _real.date.today()
-        return _real.date(_State.today.year, _State.today.month, _State.today.day)
+            return _DATE.today()
+        return _DATE(_State.today.year, _State.today.month, _State.today.day)
 
 
 class _DateTimeMeta(type):
     def __instancecheck__(cls, inst):
-        return isinstance(inst, _real.datetime)
+        return isinstance(inst, _DATETIME)
 
 
-class datetime(_real.datetime, metaclass=_DateTimeMeta):
+class datetime(_DATETIME, metaclass=_DateTimeMeta):
     @classmethod
     def now(cls, tz=None):
         m = _caller_module()
         _State.calls[m] = _State.calls.get(m, 0) + 1
         if _State.today is None:
-            return _real.datetime.now(tz)
-        return _real.datetime(_State.today.year, _State.today.month, _State.today.day, 12, 0, 0)
+            return _DATETIME.now(tz)
+        return _DATETIME(_State.today.year, _State.today.month, _State.today.day, 12, 0, 0)
 
     @classmethod
     def today(cls):
@@ -81,10 +85,10 @@ def install():
             if v is _real:
                 d[k] = shim
                 patched.append((name, k))
-            elif v is _real.date:
+            elif v is _DATE:
                 d[k] = date
                 patched.append((name, k))
-            elif v is _real.datetime:
+            elif v is _DATETIME:
                 d[k] = datetime
                 patched.append((name, k))
     return patched
@@ -102,6 +106,18 @@ def reset_calls():
     _State.calls = {}
 
 
-REAL_TODAY = _real.date.today()
-MENU = [None, _real.date(1970, 1, 1), _real.date(1999, 12, 31), _real.date(2000, 1, 1),
-        _real.date(2000, 2, 29), _real.date(2038, 1, 19), _real.date(2099, 12, 31)]
+@contextlib.contextmanager
+def process_wide():
+    """While active, the classes `date` and `datetime` of the real datetime module are the shims: code that runs at
+    import time of a library module (module-level `datetime.now()`), or binds the classes during a lazy import, gets
+    the explorer's clock answer as well."""
+    _real.date, _real.datetime = date, datetime
+    try:
+        yield
+    finally:
+        _real.date, _real.datetime = _DATE, _DATETIME
+
+
+REAL_TODAY = _DATE.today()
+MENU = [None, _DATE(1970, 1, 1), _DATE(1999, 12, 31), _DATE(2000, 1, 1),
+        _DATE(2000, 2, 29), _DATE(2038, 1, 19), _DATE(2099, 12, 31)]
